@@ -262,3 +262,26 @@ func H_C02_WrappedDelta() {
 	}
 	v.Reach("end")
 }
+
+// H_C04_LimitSid: a receiver that changes its request between 'video' and
+// 'video-low' on an EXISTING connection (same tracks: nothing to add or
+// delete) has the low-quality limit stored on its down tracks, with the
+// wanted spatial layer forced to 0, whatever the previous layer state; and
+// the limit is lifted again on the way back.
+func H_C04_LimitSid() {
+	down, _ := zzNewDown("video/vp9")
+	rt := &rtpUpTrack{}
+	down.remote = rt
+	pre := zzArbitraryLayer("pre")
+	down.setLayerInfo(pre)
+	c := &rtpDownConnection{id: "d", tracks: []*rtpDownTrack{down}}
+	limit := v.Bool("limit")
+	done, err := replaceTracks(c, []conn.UpTrack{rt}, limit)
+	v.Assert(err == nil && !done, "nothing to renegotiate: the tracks are unchanged")
+	post := down.getLayerInfo()
+	v.Assert(post.limitSid == limit, "the low-quality limit follows the request also when the tracks are unchanged")
+	v.Assert(v.Implies(limit, post.wantedSid == 0), "video-low steers to the lowest spatial layer")
+	v.Assert(zzLInv(post), "layer invariant preserved")
+	v.Assert(post.sid == pre.sid && post.tid == pre.tid && post.maxSid == pre.maxSid && post.maxTid == pre.maxTid && post.wantedTid == pre.wantedTid, "nothing else moves (the switch itself waits for the next keyframe)")
+	v.Reach("end")
+}
